@@ -186,7 +186,7 @@ _MORE4 = {
     'C02': ' References are placed at fifteen syntactic positions (index, range bound, set element, call argument, quantifier domain as accessor / range / set, inner domains, ...).',
     'C05': ' An API call table builds calls with 2-5 arguments (only the API can) with a reference at every argument position and a use of it at a disjoint type: TypeError is required.',
     'C11': ' A share step puts the same event object into two positions.',
-    'C14': ' A quarter of the random inputs pass through API steps first, including calls widened to several arguments.',
+    'C14': ' A quarter of the random inputs pass through API steps first, including calls widened to several arguments; a deterministic table puts multi-argument calls under plain and negated quantifiers (1 440 derived inputs).',
 }
 for _pid, _t in _MORE4.items():
     EXTRA.setdefault(_pid, dict(level='', technique=''))
